@@ -246,6 +246,40 @@ func (m *Model) ruleDONE(r *Results) {
 			}
 		})
 	}
+	// the per-collection feed is started with the arguments copy that carries the fresh channel
+	for _, f := range m.Funcs {
+		m.eachCall(f, func(c ssa.CallInstruction) {
+			callee := c.Common().StaticCallee()
+			if callee == nil || !m.inPkg(callee) || !inCycle(c.Block()) {
+				return
+			}
+			for i, p := range callee.Params {
+				if !isNamed(p.Type(), sgbucketPath, "FeedArguments") || i >= len(c.Common().Args) {
+					continue
+				}
+				// only calls that (transitively) start the feed loop
+				if !m.reachHybrid(callee, true)[fn] {
+					continue
+				}
+				arg := stripConv(c.Common().Args[i])
+				okCopy := false
+				if ld, ok := arg.(*ssa.UnOp); ok {
+					if al, ok := ld.X.(*ssa.Alloc); ok {
+						for _, ref := range *al.Referrers() {
+							if fa, ok := ref.(*ssa.FieldAddr); ok && fieldOf(fa).Name() == "DoneChan" {
+								for _, r2 := range *fa.Referrers() {
+									if st, ok := r2.(*ssa.Store); ok && m.derivesFromMakeChan(st.Val, 0, map[ssa.Value]bool{}) {
+										okCopy = true
+									}
+								}
+							}
+						}
+					}
+				}
+				r.check(okCopy, rule, m.declName(f)+" / per-collection feed arguments", m.instrPos(c), "each per-collection feed is started with the arguments copy that carries its own done channel", "a per-collection feed is started with the caller's own arguments (and so with the caller's done channel): every per-collection feed closes it, and the second close panics in a library goroutine")
+			}
+		})
+	}
 	if nFresh == 0 || nCoalesce == 0 {
 		r.undecided(rule, "multi-collection feed start", "-", "expected a per-collection done channel and one coalescing close; found %d/%d", nFresh, nCoalesce)
 	}
@@ -452,6 +486,42 @@ func (m *Model) ruleOPENMODE(r *Results) {
 				okCreate = true
 			}
 		}
+	}
+	// the ReOpenExisting refusal may only come after the registry lookup has missed
+	{
+		var lookup ssa.CallInstruction
+		m.eachCall(fn, func(c ssa.CallInstruction) {
+			callee := c.Common().StaticCallee()
+			if callee == nil || !m.inPkg(callee) {
+				return
+			}
+			for g := range m.reachableLocal(callee) {
+				if m.methodOwner(g) == reg && reg != nil {
+					hasMode := false
+					for _, p := range g.Params {
+						if named, ok := p.Type().(*types.Named); ok && named.Obj().Pkg() == m.SSA.Pkg {
+							if b, ok := named.Underlying().(*types.Basic); ok && b.Info()&types.IsInteger != 0 {
+								hasMode = true
+							}
+						}
+					}
+					if hasMode && lookup == nil {
+						lookup = c
+					}
+				}
+			}
+		})
+		after := lookup != nil
+		if lookup != nil {
+			for _, iff := range allIfs(fn) {
+				if _, ok := m.modeTest(iff, reopen); ok {
+					if !(lookup.Block() == iff.Block() && indexIn(lookup.Block(), lookup) < indexIn(iff.Block(), iff) || lookup.Block() != iff.Block() && lookup.Block().Dominates(iff.Block())) {
+						after = false
+					}
+				}
+			}
+		}
+		r.check(after, rule, name+" / registry consulted before refusing ReOpenExisting", m.pos(fn.Pos()), "the not-exist refusal for ReOpenExisting comes after the registry lookup", "ReOpenExisting is refused before the registry of open buckets has been consulted: an in-memory bucket that exists (it lives in the registry until CloseAndDelete) can no longer be reopened")
 	}
 	r.check(okReopen, rule, name+" / ReOpenExisting of an absent in-memory bucket fails", m.pos(fn.Pos()), "mode ReOpenExisting on an in-memory URL that is not cached returns the not-exist error", "ReOpenExisting no longer fails for an in-memory bucket that does not exist")
 	r.check(okCreate, rule, name+" / CreateNew of an existing directory fails", m.pos(fn.Pos()), "mode CreateNew on an existing directory returns the exist error", "CreateNew no longer fails when the bucket directory already exists")
